@@ -29,8 +29,37 @@ OTHER = ["(define shared 1)", "(set! shared (+ shared 1))", "shared", "(define (
          "(define v (vector 1 2))", "(vector-set! v 0 'x)", "v", "(1 2", "(define-syntax broken (syntax-rules", ")"]
 
 
+def lib_episode(rng):
+    """a library of the SAME NAME in every program, with its own body and export list: registered on the program's own
+    instance, imported first (import declarations precede other forms), used later"""
+    k = rng.randrange(1, 100)
+    if rng.random() < 0.5:
+        src = "(define-library (shlib) (import (scheme base)) (export shval) (begin (define (shval) %d)))" % k
+        uses = ["(shval)", "(shval)", "(twice 1)"]
+    else:
+        src = ("(define-library (shlib) (import (scheme base)) (export shval twice) (begin (define n %d) (define (shval) (set! n (+ n 1)) n) "
+               "(define (twice q) (* 2 q))))" % k)
+        uses = ["(shval)", "(twice 4)", "(shval)"]
+    return [("R", "shlib", src), "(import (scheme base) (shlib))"], uses
+
+
 def gen_prog(rng):
     n = rng.randrange(4, 12)
+    out = []
+    if rng.random() < 0.35:
+        head, uses = lib_episode(rng)
+        body = gen_prog_body(rng, n)
+        for u in uses:
+            body.insert(rng.randrange(len(body) + 1), u)
+        return head + body
+    return gen_prog_body(rng, n)
+
+
+def fields_alone(prog):
+    return ["std"] + [("R%s=%s" % (x[1], x[2])) if isinstance(x, tuple) else ">" + x for x in prog]
+
+
+def gen_prog_body(rng, n):
     out = []
     for _ in range(n):
         r = rng.random()
@@ -65,12 +94,18 @@ def run(rep, tier, rng):
             if rng.random() < 0.08:
                 steps.append("new"); order.append(("new", None)); continue
             if ib >= len(b) or (ia < len(a) and rng.random() < 0.5):
-                steps.append("0:" + a[ia]); order.append((0, ia)); ia += 1
+                inst, prog, idx = 0, a, ia; ia += 1
             else:
-                steps.append("1:" + b[ib]); order.append((1, ib)); ib += 1
+                inst, prog, idx = 1, b, ib; ib += 1
+            item = prog[idx]
+            if isinstance(item, tuple):
+                steps.append("R%d:%s=%s" % (inst, item[1], item[2])); order.append(("reg", None))
+            else:
+                # the index of this form among the FORMS of its program (registrations give no result when run alone)
+                steps.append("%d:%s" % (inst, item)); order.append((inst, len([x for x in prog[:idx] if not isinstance(x, tuple)])))
         cases.append(("w%d" % i, "world", steps))
-        cases.append(("a%d" % i, "prog", ["std"] + a))
-        cases.append(("b%d" % i, "prog", ["std"] + b))
+        cases.append(("a%d" % i, "libs", fields_alone(a)))
+        cases.append(("b%d" % i, "libs", fields_alone(b)))
         meta[i] = (a, b, steps, order)
     impl = C.run_hx(cases)
     model = C.run_driver(cases)
@@ -85,6 +120,11 @@ def run(rep, tier, rng):
         bad = False
         for k, (inst, idx) in enumerate(order):
             got = w[k] if k < len(w) else "?"
+            if inst == "reg":
+                if got != "reg-ok":
+                    rep.violation({"what": "registering a library source on an instance failed", "steps": steps[:k + 1], "result": got})
+                    bad = True; break
+                continue
             if inst == "new":
                 if got != "new-ok":
                     rep.violation({"what": "creating a new interpreter instance failed", "steps": steps[:k + 1], "result": got})
@@ -93,7 +133,7 @@ def run(rep, tier, rng):
             want_r = alone[inst][idx] if idx < len(alone[inst]) else "?"
             if got != want_r:
                 rep.violation({"what": "what one interpreter instance evaluated changed the result of another instance",
-                               "steps": steps[:k + 1], "instance": inst, "form": (a if inst == 0 else b)[idx],
+                               "steps": steps[:k + 1], "instance": inst, "form": steps[k][2:],
                                "interleaved": got, "alone": want_r})
                 bad = True; break
         if bad:
@@ -108,7 +148,8 @@ def main(tier, seed):
     rep = C.Report(PROP, tier, seed)
     rng = random.Random(seed)
     rep.cov["rule"] = ("inventory of global state in /repo/src; random pairs of programs (macro definitions incl. redefinitions of "
-                       "bundled forms, uses of derived forms and library procedures, colliding definitions and assignments, imports, "
+                       "bundled forms, uses of derived forms and library procedures, colliding definitions and assignments, imports, a library of "
+                       "the same name registered with different bodies on each instance, "
                        "failing and unparsable forms) interleaved at random over two instances on one thread, with creation of "
                        "further instances at random points; distinct = distinct step sequences")
     rep.assumptions = ["that the Rust code has no other channel between instances than the inventoried globals is an inventory (grep "
